@@ -335,3 +335,39 @@ func TestC11Stream(t *testing.T) {
 		})
 	})
 }
+
+// FuzzC11: coverage-guided differential fuzzing of the packet layer. Arbitrary 188-byte packets are first given to the
+// independent strict decoder; for every packet it accepts as conformant (and that has no reserved bytes inside the
+// adaptation field extension), NextPacket must return the struct the decoded model implies and WritePacket of that
+// struct must reproduce the bytes.
+func FuzzC11(f *testing.F) {
+	seed := func(m *ref.TSPacket) { f.Add(m.MustEncode()[1:]) }
+	pl := make([]byte, 184)
+	seed(&ref.TSPacket{PID: 0x100, HasPayload: true, CC: 1, Payload: pl})
+	v := uint8(3)
+	pw := uint32(0x12345)
+	seed(&ref.TSPacket{PID: 0x101, PUSI: true, HasAF: true, HasPayload: true, CC: 2, AF: &ref.AF{RAI: true, PCR: &ref.PCR{Base: 1 << 32, Ext: 300}, OPCR: &ref.PCR{Base: 5, Ext: 1}, Splice: &v, HasPrivate: true, Private: []byte{1, 2, 3},
+		Ext: &ref.AFExt{LTW: &ref.LTW{Valid: true, Offset: 0x7fff}, Piecewise: &pw, Seamless: &ref.Seamless{Type: 9, DTS: 0x1ffffffff}}, Stuffing: 4}, Payload: pl[:130]})
+	seed(&ref.TSPacket{PID: 0x1fff, HasAF: true, AF: &ref.AF{Stuffing: 182}})
+	seed(&ref.TSPacket{PID: 0, HasAF: true, HasPayload: true, AF: &ref.AF{Empty: true}, Payload: pl[:183]})
+	f.Fuzz(func(t *testing.T, rest []byte) {
+		if len(rest) != 187 {
+			return
+		}
+		pkt := append([]byte{0x47}, rest...)
+		m, err := ref.DecodeTS(pkt)
+		if err != nil || (m.HasAF && m.AF.Ext != nil && m.AF.Ext.Reserved > 0) {
+			// not conformant: only panic-freedom
+			_, _ = nextPacketOf(pkt)
+			return
+		}
+		// reserved bits must be 1 for byte-identical re-emission: compare with the canonical re-encoding
+		if !bytes.Equal(m.MustEncode(), pkt) {
+			_, _ = nextPacketOf(pkt)
+			return
+		}
+		if err := c11Check(m); err != nil {
+			t.Fatalf("%v\npacket %x", err, pkt)
+		}
+	})
+}
